@@ -83,6 +83,15 @@ def cases():
     add("DATEDIFF(unit, col, '<s>') casts only the string", "datediff_string_literal_timestamp_cast",
         mk(lambda o: node("DateDiff", "stmt", this=op(o, "a"), expression=op(o, "b", lit("2023-03-02", True)), unit=op(o, "u", node("Var", this=Const("DAY"))))),
         lambda o, i: P("DateDiff", this=IS(o["a"]), expression=P("Cast", this=IS(o["b"])), unit=IS(o["u"])), "non-literal operands keep their type")
+    add("DATEADD(unit, n, <column>) is left alone", "dateadd_string_literal_timestamp_cast",
+        mk(lambda o: node("DateAdd", "stmt", this=op(o, "x"), expression=op(o, "n"), unit=node("Var", this=Const("DAY")))),
+        UNCHANGED, "only string literals are implicit timestamps")
+    add("DATEADD(unit, n, <number>) is left alone", "dateadd_string_literal_timestamp_cast",
+        mk(lambda o: node("DateAdd", "stmt", this=lit("5", False), expression=op(o, "n"), unit=node("Var", this=Const("DAY")))),
+        UNCHANGED, "a numeric literal is not a timestamp string")
+    add("DATEDIFF(unit, <number>, col) casts nothing", "datediff_string_literal_timestamp_cast",
+        mk(lambda o: node("DateDiff", "stmt", this=op(o, "a", lit("5", False)), expression=op(o, "b"), unit=op(o, "u", node("Var", this=Const("DAY"))))),
+        lambda o, i: P("DateDiff", this=IS(o["a"]), expression=IS(o["b"]), unit=IS(o["u"])), "only string literals are implicit timestamps")
     # --- hashes
     add("SHA2(x) -> SHA256(x)", "sha256", mk(lambda o: node("SHA2", "stmt", this=op(o, "x"))), lambda o, i: P("SHA256", this=IS(o["x"])), "default digest size is 256")
     add("SHA2(x, 256) -> SHA256(x)", "sha256", mk(lambda o: node("SHA2", "stmt", this=op(o, "x"), length=lit("256", False))), lambda o, i: P("SHA256", this=IS(o["x"])), "256-bit digest")
